@@ -14,6 +14,7 @@ import (
 	"time"
 
 	"github.com/LemoFoundationLtd/lemochain-core/chain/account"
+	"github.com/LemoFoundationLtd/lemochain-core/chain/deputynode"
 	"github.com/LemoFoundationLtd/lemochain-core/chain/params"
 	"github.com/LemoFoundationLtd/lemochain-core/chain/types"
 	"github.com/LemoFoundationLtd/lemochain-core/common"
@@ -64,7 +65,8 @@ type ledger struct {
 	univ   []common.Address
 	nextID int
 	// ground truth of multisig configuration and who is candidate, maintained from observed state
-	mode string
+	mode    string
+	actorOf map[common.Address]string // account address -> name of its key (users, genesis deputies, income addresses)
 }
 
 func (l *ledger) label(a common.Address) int {
@@ -220,10 +222,31 @@ func (l *ledger) txLine(kw string, lt *ledgerTx) string {
 		tx.Type(), len(tx.Message()), nz, z, l.signersOf(tx, "from"), l.signersOf(tx, "payer"), kind)
 }
 
+// ledgerScenario runs the scenario in epochs: a candidate that unregistered can never register again, so a world's
+// supply of candidates is finite — every epoch starts a fresh world (and tells the model to forget the old one).
 func ledgerScenario(c *Ctx, mode string) {
+	remaining := c.N
+	for epoch := 0; remaining > 0; epoch++ {
+		nb := 60 + c.Rnd.Intn(30)
+		if nb > remaining || remaining-nb < 25 {
+			nb = remaining
+		}
+		ledgerEpoch(c, mode, nb, epoch)
+		remaining -= nb
+		c.Count("epoch")
+	}
+}
+
+func ledgerEpoch(c *Ctx, mode string, nBlocks int, epoch int) {
 	oldMin := params.MinCandidateDeposit
 	params.MinCandidateDeposit = lemo(1000)
 	defer func() { params.MinCandidateDeposit = oldMin }()
+	// short terms: snapshot blocks and reward blocks (term reward + postponed deposit refunds in Finalize) occur
+	// every TermDuration blocks; the deputies change with the terms
+	oldT, oldI := params.TermDuration, params.InterimDuration
+	params.TermDuration, params.InterimDuration = uint32(9+c.Rnd.Intn(6)), uint32(2+c.Rnd.Intn(3))
+	defer func() { params.TermDuration, params.InterimDuration = oldT, oldI }()
+	termT, termI := params.TermDuration, params.InterimDuration
 	now := uint32(time.Now().Unix())
 	w := NewWorld(3, now-600000, 10000)
 	n := w.NewNode(3)
@@ -234,28 +257,35 @@ func ledgerScenario(c *Ctx, mode string) {
 		defer func() { nb.Close() }()
 	}
 	var contracts []common.Address
-	l := &ledger{c: c, w: w, n: n, labels: map[common.Address]int{}, names: map[string]*ecdsa.PrivateKey{}, mode: mode}
+	l := &ledger{c: c, w: w, n: n, labels: map[common.Address]int{}, names: map[string]*ecdsa.PrivateKey{}, mode: mode, actorOf: map[common.Address]string{}}
 	// fixed labels: pool = 1, founder = 2
 	l.label(params.DepositPoolAddress)
 	l.label(keyAddr(w.FounderKey))
 	l.names["founder"] = w.FounderKey
 	userNames := []string{"u0", "u1", "u2", "u3", "u4", "u5", "u6", "u7"}
 	l.univ = append(l.univ, params.DepositPoolAddress, keyAddr(w.FounderKey))
+	// the genesis deputies and their income addresses act too (vote, top up, unregister while being a deputy)
+	var extraNames []string
 	for i, k := range w.DeputyKeys {
 		l.names[fmt.Sprintf("deputy-%d", i)] = k
 		l.univ = append(l.univ, keyAddr(k), keyAddr(detKey(fmt.Sprintf("income-%d", i))))
+		extraNames = append(extraNames, fmt.Sprintf("deputy-%d", i), fmt.Sprintf("income-%d", i))
 	}
 	for _, u := range userNames {
 		l.univ = append(l.univ, keyAddr(l.key(u)))
 	}
+	for _, nm := range append(append([]string{}, userNames...), extraNames...) {
+		l.actorOf[keyAddr(l.key(nm))] = nm
+	}
 	for _, a := range l.univ {
 		l.label(a)
 	}
-	if mode == "c06" {
+	if mode == "c06" && epoch == 0 {
 		hashFacts(c)
 	}
-	c.Op(fmt.Sprintf("params %s %s %s %d %d %d", params.VoteExchangeRate.String(), params.DepositExchangeRate.String(), params.MinCandidateDeposit.String(),
-		params.TermDuration, params.InterimDuration, l.label(params.DepositPoolAddress)), "ok")
+	c.Op("reset", "ok")
+	c.Op(fmt.Sprintf("params %s %s %s %d %d %d %s", params.VoteExchangeRate.String(), params.DepositExchangeRate.String(), params.MinCandidateDeposit.String(),
+		params.TermDuration, params.InterimDuration, l.label(params.DepositPoolAddress), params.MinRewardPrecision.String()), "ok")
 	var us []string
 	for _, a := range l.univ {
 		us = append(us, fmt.Sprintf("%d", l.label(a)))
@@ -302,10 +332,17 @@ func ledgerScenario(c *Ctx, mode string) {
 	}{}
 
 	contractBlock := false
+	nearBoundary := false // the block is in the last blocks of a term's mining period or in the interim period
 	genTx := func(head common.Hash) *ledgerTx {
 		u := userNames[rnd.Intn(len(userNames))]
+		if rnd.Intn(6) == 0 {
+			u = extraNames[rnd.Intn(len(extraNames))]
+		}
 		uk := l.key(u)
 		other := userNames[rnd.Intn(len(userNames))]
+		if rnd.Intn(8) == 0 {
+			other = extraNames[rnd.Intn(len(extraNames))]
+		}
 		ok_ := l.key(other)
 		kinds := []string{"transfer", "transfer", "transfer", "overdraft", "vote", "vote", "register", "topup", "unregister", "box", "boxfail", "payer", "payer-unsigned", "wrongkey", "setsigners", "ms-ok", "ms-dup", "ms-mall", "ms-short", "ms-ownkey", "extrasig", "pricey", "zero", "tamper", "tamper-box"}
 		switch l.mode {
@@ -315,6 +352,10 @@ func ledgerScenario(c *Ctx, mode string) {
 			kinds = []string{"transfer", "payer", "payer-unsigned", "wrongkey", "setsigners", "ms-ok", "ms-dup", "ms-mall", "ms-short", "ms-ownkey", "ms-ownkey", "extrasig", "tamper", "tamper-box", "box"}
 		}
 		k := kinds[rnd.Intn(len(kinds))]
+		if l.mode != "c06" && (rnd.Intn(12) == 0 || nearBoundary && rnd.Intn(4) == 0) {
+			// candidates leaving around the term boundary, ex-candidates / income addresses that vote
+			k = []string{"unregister-cand", "exvote", "exvote", "incomevote", "incomevote", "register", "vote"}[rnd.Intn(7)]
+		}
 		if contractBlock {
 			k = []string{"create-counter", "create-reverter", "create-logger", "create-killer", "call", "call", "call-value", "transfer"}[rnd.Intn(8)]
 		}
@@ -330,6 +371,54 @@ func ledgerScenario(c *Ctx, mode string) {
 			msAccts = append(msAccts, a)
 		}
 		sort.Strings(msAccts)
+		pick := func(as []common.Address) (string, bool) {
+			var nms []string
+			for _, a := range as {
+				if nm, ok := l.actorOf[a]; ok {
+					nms = append(nms, nm)
+				}
+			}
+			if len(nms) == 0 {
+				return "", false
+			}
+			return nms[rnd.Intn(len(nms))], true
+		}
+		if (k == "unregister" || k == "unregister-cand") && len(cands) <= 2 {
+			// unregistering is for ever: keep the world supplied with candidates
+			k = "transfer"
+		}
+		switch k {
+		case "unregister-cand":
+			// a REGISTERED candidate (maybe a deputy of the running term, maybe in the interim period) unregisters
+			if nm, ok := pick(cands); ok {
+				return mk(txRegister(l.key(nm), new(big.Int), l.key("node-"+nm), true, nil, TxOpt{Exp: exp(), Msg: u_("unc")}), "unregister", nm)
+			}
+			k = "transfer"
+		case "exvote":
+			// an unregistered candidate still waiting for its deposit votes for a registered candidate
+			var waiting []common.Address
+			for _, a := range l.univ {
+				if v := l.view(head, a); v.isCand == 2 && v.deposit != "" {
+					waiting = append(waiting, a)
+				}
+			}
+			if nm, ok := pick(waiting); ok && len(cands) > 0 {
+				return mk(txVote(l.key(nm), cands[rnd.Intn(len(cands))], TxOpt{Exp: exp(), Msg: u_("exv")}), "vote", nm)
+			}
+			k = "vote"
+		case "incomevote":
+			// the income address of a deputy of the running term votes for a registered candidate
+			var incs []common.Address
+			for _, d := range n.DM.GetDeputiesByHeight(parent.Height()+1, true) {
+				if v := l.view(head, d.MinerAddress); v.incomeSet {
+					incs = append(incs, v.income)
+				}
+			}
+			if nm, ok := pick(incs); ok && len(cands) > 0 {
+				return mk(txVote(l.key(nm), cands[rnd.Intn(len(cands))], TxOpt{Exp: exp(), Msg: u_("incv")}), "vote", nm)
+			}
+			k = "vote"
+		}
 		switch k {
 		case "create-counter":
 			// storage[0]++ ; emits nothing
@@ -579,7 +668,44 @@ func ledgerScenario(c *Ctx, mode string) {
 
 	// block 1: fund the users
 	first := true
-	for blk := 0; blk < c.N; blk++ {
+	resync := func() {
+		// the ledger model does not execute bytecode / precompiles: re-synchronise it from the real state
+		for _, a := range l.univ {
+			v := l.view(parent.Hash(), a)
+			dep := "-"
+			if v.deposit != "" {
+				dep = v.deposit
+			}
+			isDep := 0
+			if id := l.nodeIDOf(parent.Hash(), a); id != "" && n.DM.IsNodeDeputy(parent.Height()+1, common.FromHex(id)) {
+				isDep = 1
+			}
+			c.Op(fmt.Sprintf("acct %d %s %s %d %d %s %d %d", l.label(a), v.bal.String(), v.votes.String(), l.label(v.voteFor), v.isCand, dep, l.label(v.income), isDep), "ok")
+		}
+		// signers survive a resync only through setsigners lines: replay them
+		var msNames []string
+		for a := range multisig {
+			msNames = append(msNames, a)
+		}
+		sort.Strings(msNames)
+		for _, a := range msNames {
+			regs := l.view(parent.Hash(), keyAddr(l.key(a))).signers
+			var ss []string
+			for _, r := range regs {
+				ss = append(ss, fmt.Sprintf("%d:%d", l.label(r.Address), r.Weight))
+			}
+			c.Op(fmt.Sprintf("signers %d %s", l.label(keyAddr(l.key(a))), strings.Join(append([]string{"-"}, ss...), " ")), "ok")
+		}
+	}
+	prevDeputies := ""
+	for blk := 0; blk < nBlocks; blk++ {
+		height := parent.Height() + 1
+		phase := height % termT
+		isSnapshot := deputynode.IsSnapshotBlock(height)
+		isReward := deputynode.IsRewardBlock(height)
+		nearBoundary = !first && (phase+2 >= termT || phase <= termI+1)
+		contractBlock = false
+		rewardSetBlock := false
 		var cand []*ledgerTx
 		if first {
 			for i, u := range userNames {
@@ -589,57 +715,130 @@ func ledgerScenario(c *Ctx, mode string) {
 				}
 				cand = append(cand, mk(txTransfer(w.FounderKey, keyAddr(l.key(u)), amt, TxOpt{Exp: exp(), Msg: fmt.Sprintf("fund%d", i)}), "fund", "founder"))
 			}
+			for i, u := range extraNames {
+				// genesis deputies and their income addresses: enough to pay gas, to vote with weight and to top up
+				amt := new(big.Int).Add(lemo(int64(150+i*170)), big.NewInt(int64(i)))
+				cand = append(cand, mk(txTransfer(w.FounderKey, keyAddr(l.key(u)), amt, TxOpt{Exp: exp(), Msg: fmt.Sprintf("fundx%d", i)}), "fund", "founder"))
+			}
 			first = false
+		} else if phase == termI+2 && rnd.Intn(5) > 0 {
+			// the reward manager (founder) sets the reward of the RUNNING term through precompile 0x09; it is paid by
+			// issueTermReward in the next reward block. The ledger model does not run precompiles: resync block.
+			rewardSetBlock = true
+			term := deputynode.GetSignerTermIndexByHeight(height)
+			var value *big.Int
+			switch rnd.Intn(6) {
+			case 0:
+				value = lemo(3000)
+			case 1:
+				value = lemo(int64(900 + rnd.Intn(5000)))
+			case 2:
+				value = new(big.Int).Add(lemo(int64(1000+rnd.Intn(1000))), big.NewInt(int64(rnd.Intn(1000000)))) // not a multiple of the precision
+			case 3:
+				value = big.NewInt(int64(1 + rnd.Intn(1000))) // below the precision: every salary rounds to 0
+			case 4:
+				value = lemo(int64(1 + rnd.Intn(5))) // a few LEMO over several nodes: large rounding remainder
+			default:
+				value = lemo(100000)
+			}
+			cand = append(cand, mk(txSetReward(w.FounderKey, term, value, TxOpt{Exp: exp(), Msg: u_("rw")}), "set-reward", "founder"))
+			c.Count("block:set-reward")
 		} else {
-			contractBlock = mode == "c01" && rnd.Intn(3) == 0
+			contractBlock = mode == "c01" && !isReward && !isSnapshot && rnd.Intn(3) == 0
 			nt := 1 + rnd.Intn(7)
+			if isReward && rnd.Intn(3) == 0 {
+				nt = 0 // nothing but Finalize changes the state
+			}
 			for i := 0; i < nt; i++ {
 				cand = append(cand, genTx(parent.Hash()))
 			}
 		}
-		var txs types.Transactions
-		byHash := map[common.Hash]*ledgerTx{}
-		for _, lt := range cand {
-			txs = append(txs, lt.tx)
-			byHash[lt.tx.Hash()] = lt
-		}
-		k, err := n.InTurn(parent, t)
+		minerAddr, k, err := l.inTurn(parent, t)
 		if err != nil {
-			panic(err)
+			// (e.g. a term without deputies) — a finding of C10's area, not of this scenario
+			c.Fail("c10/ledger-scenario-stopped", fmt.Sprintf("height %d: %v", height, err), nil)
+			c.Count("scenario:stopped")
+			break
 		}
-		miner := keyAddr(k)
+		miner := minerAddr
+		if w.KeyOfMiner(miner) == nil {
+			c.Count("block:mined-by-non-genesis-deputy")
+		}
 		// the block gas limit is the miner's choice: sometimes make it tight, so that the gas pool runs out
 		// in the middle of the candidate list (or in the middle of a box)
 		blockGas := uint64(105000000)
-		if !first && blk > 1 && rnd.Intn(4) == 0 {
+		if !first && blk > 1 && !rewardSetBlock && rnd.Intn(4) == 0 {
 			blockGas = uint64(25000 + rnd.Intn(400000))
 			c.Count("block:tight-gas-limit")
 		}
-		modelGas := blockGas
-		if !contractBlock {
-			c.Op(fmt.Sprintf("block %d %d %d", parent.Height()+1, l.label(miner), modelGas), "ok")
-			for _, lt := range cand {
-				c.Op(l.txLine("tx", lt), "ok")
-				for _, st := range lt.subs {
-					c.Op(l.txLine("sub", st), "ok")
-				}
+		modelled := !contractBlock && !rewardSetBlock
+		blockLine := fmt.Sprintf("block %d %d %d %s", height, l.label(miner), blockGas, l.depsField(parent.Hash(), height))
+		var txLines []string
+		for _, lt := range cand {
+			txLines = append(txLines, l.txLine("tx", lt))
+			for _, st := range lt.subs {
+				txLines = append(txLines, l.txLine("sub", st))
+			}
+		}
+		var rf *rewardFacts
+		if isReward {
+			rf, err = l.rewardFacts(parent.Hash(), height)
+			if err != nil {
+				c.Fail("c10/ledger-scenario-stopped", fmt.Sprintf("reward height %d: %v", height, err), nil)
+				c.Count("scenario:stopped")
+				break
 			}
 		}
 		before := map[common.Address]*big.Int{}
 		for _, a := range l.univ {
 			before[a] = l.view(parent.Hash(), a).bal
 		}
+		var refunds []common.Address
+		var txs types.Transactions
+		byHash := map[common.Hash]*ledgerTx{}
+		stopped := false
 		res, pmsg := SafeMsg(func() string {
-			b, invalid, err := n.BuildGas(parent, t, txs, nil, blockGas)
+			mkTxs := func() {
+				txs = nil
+				byHash = map[common.Hash]*ledgerTx{}
+				for _, lt := range cand {
+					txs = append(txs, lt.tx)
+					byHash[lt.tx.Hash()] = lt
+				}
+			}
+			mkTxs()
+			b, invalid, rec, err := l.buildRec(parent, t, txs, k, blockGas)
 			if err != nil {
 				return "builderr " + err.Error()
+			}
+			if isSnapshot && (len(b.DeputyNodes) == 0 || !deputiesLoadable(b)) && len(cand) > 0 {
+				// a vote change inside the snapshot block broke the order of the deputy list (known finding
+				// c10/snapshot-deputies-not-loadable: the node would panic when the block becomes stable):
+				// not this scenario's subject — the miner mines the snapshot block without transactions instead
+				c.Count("snapshot:deputies-not-loadable:re-mined-empty")
+				cand, txLines = nil, nil
+				mkTxs()
+				b, invalid, rec, err = l.buildRec(parent, t, txs, k, blockGas)
+				if err != nil {
+					return "builderr " + err.Error()
+				}
+			}
+			if isSnapshot && (len(b.DeputyNodes) == 0 || !deputiesLoadable(b)) {
+				c.Fail("c10/ledger-scenario-stopped", fmt.Sprintf("snapshot block %d: deputy list %s is not loadable even without transactions", height, b.DeputyNodes.String()), nil)
+				c.Count("scenario:stopped")
+				stopped = true
+				return "stopped"
+			}
+			refunds = rec.refunds
+			if isReward != rec.called {
+				c.Fail("c05/reward-block-schedule", fmt.Sprintf("block %d: IsRewardBlock=%v but LoadRefundCandidates called=%v", height, isReward, rec.called), nil)
 			}
 			if e := n.Insert(CloneBlock(b)); e != nil {
 				c.Fail("c01/honest-block-rejected", fmt.Sprintf("block %d built by the miner path is rejected by the validator path: %v; classes=%v", b.Height(), e, classesOf(cand)), nil)
 				return "rejected"
 			}
 			if mode == "c01" {
-				l.rebuildChecks(b, txs, t, byHash, blockGas)
+				l.rebuildChecks(b, txs, t, byHash, blockGas, k)
 				l.redoChecks(b)
 			}
 			var sel, inv []string
@@ -654,8 +853,8 @@ func ledgerScenario(c *Ctx, mode string) {
 			for _, id := range invIDs {
 				inv = append(inv, fmt.Sprintf("%d", id))
 			}
-			if !contractBlock {
-				l.oracles(b, invalid, byHash, before, miner, multisig)
+			if modelled {
+				l.oracles(b, invalid, byHash, before, miner, multisig, rf, refunds)
 			}
 			if mode == "c01" {
 				for _, cl := range b.ChangeLogs {
@@ -678,46 +877,50 @@ func ledgerScenario(c *Ctx, mode string) {
 				}
 			}
 			dumpStr := l.dump(b.Hash())
-			// a second deputy confirms: 2 of 3 signatures make the block stable (and durable across restarts)
-			var conf *ecdsa.PrivateKey
-			for _, dk := range w.DeputyKeys {
-				if keyAddr(dk) != miner {
-					conf = dk
-					break
+			// the other deputies of the term confirm: the block becomes stable (and durable across restarts)
+			l.confirmAll(n, b)
+			if isSnapshot {
+				c.Count("block:snapshot")
+				ds := fmt.Sprint(sortedLabels(l, func() (as []common.Address) {
+					for _, d := range b.DeputyNodes {
+						as = append(as, d.MinerAddress)
+					}
+					return
+				}()))
+				if prevDeputies != "" && ds != prevDeputies {
+					c.Count("snapshot:deputies-changed")
+				}
+				prevDeputies = ds
+				for _, d := range b.DeputyNodes {
+					if w.KeyOfMiner(d.MinerAddress) == nil {
+						c.Count("snapshot:non-genesis-deputy-elected")
+					}
+					if l.view(b.Hash(), d.MinerAddress).isCand != 1 {
+						c.Count("snapshot:unregistered-deputy-elected")
+					}
 				}
 			}
-			n.BC.InsertConfirms(b.Height(), b.Hash(), []types.SignData{Confirm(b, conf)})
 			parent = b
 			return fmt.Sprintf("sel=%s inv=%s gas=%d | %s", strings.Join(sel, ","), strings.Join(inv, ","), b.GasUsed(), dumpStr)
 		})
-		if contractBlock {
-			c.Count("block:contract")
+		if stopped {
+			break
+		}
+		if !modelled {
+			if contractBlock {
+				c.Count("block:contract")
+			}
 			if strings.HasPrefix(res, "sel=") {
-				// the ledger model does not execute bytecode: re-synchronise it from the real state
-				for _, a := range l.univ {
-					v := l.view(parent.Hash(), a)
-					dep := "-"
-					if v.deposit != "" {
-						dep = v.deposit
-					}
-					isDep := 0
-					if w.KeyOfMiner(a) != nil {
-						isDep = 1
-					}
-					c.Op(fmt.Sprintf("acct %d %s %s %d %d %s %d %d", l.label(a), v.bal.String(), v.votes.String(), l.label(v.voteFor), v.isCand, dep, l.label(v.income), isDep), "ok")
-				}
-				// signers survive a resync only through setsigners lines: replay them
-				for a, keys := range multisig {
-					_ = keys
-					regs := l.view(parent.Hash(), keyAddr(l.key(a))).signers
-					var ss []string
-					for _, r := range regs {
-						ss = append(ss, fmt.Sprintf("%d:%d", l.label(r.Address), r.Weight))
-					}
-					c.Op(fmt.Sprintf("signers %d %s", l.label(keyAddr(l.key(a))), strings.Join(append([]string{"-"}, ss...), " ")), "ok")
-				}
+				resync()
 			}
 		} else {
+			c.Op(blockLine, "ok")
+			for _, ln := range txLines {
+				c.Op(ln, "ok")
+			}
+			if isReward {
+				c.Op(l.rewardLine(rf, refunds), "ok")
+			}
 			c.Op("end", res)
 		}
 		if strings.HasPrefix(res, "panic") || strings.HasPrefix(res, "builderr") || res == "rejected" {
@@ -759,7 +962,7 @@ func byHashID(m map[common.Hash]*ledgerTx, tx *types.Transaction) int {
 }
 
 // oracles: the properties checked directly on the implementation's block.
-func (l *ledger) oracles(b *types.Block, invalid types.Transactions, byHash map[common.Hash]*ledgerTx, before map[common.Address]*big.Int, miner common.Address, multisig map[string][]string) {
+func (l *ledger) oracles(b *types.Block, invalid types.Transactions, byHash map[common.Hash]*ledgerTx, before map[common.Address]*big.Int, miner common.Address, multisig map[string][]string, rf *rewardFacts, refunds []common.Address) {
 	c := l.c
 	hasBox, hasBoxWithSubs := false, false
 	for _, tx := range b.Txs {
@@ -784,14 +987,77 @@ func (l *ledger) oracles(b *types.Block, invalid types.Transactions, byHash map[
 		}
 	}
 	minerInc := l.view(b.ParentHash(), miner)
-	if delta.Sign() != 0 {
+	// a reward block mints the salaries issueTermReward pays (and nothing else): the expected change of the total is the
+	// sum of the salaries by the harness's own arithmetic; refunds move pool -> candidate and cancel out
+	expMint := new(big.Int)
+	if rf != nil {
+		c.Count("reward-block")
+		if rf.total.Sign() > 0 {
+			c.Count("reward:total>0")
+		}
+		sal := expectedSalaries(rf)
+		for i, x := range sal {
+			expMint.Add(expMint, x)
+			if x.Sign() > 0 {
+				c.Count("reward:salary>0")
+				// does the receiver vote for a registered candidate? (then Finalize must move votes)
+				recv := rf.nodes[i].MinerAddress
+				if pv := l.view(b.Hash(), recv); pv.incomeSet {
+					recv = pv.income
+				}
+				if vf := l.view(b.Hash(), recv).voteFor; vf != (common.Address{}) && l.view(b.Hash(), vf).isCand == 1 {
+					c.Count("reward:salary-receiver-votes-for-registered")
+				}
+			}
+		}
+		if expMint.Cmp(rf.total) > 0 {
+			c.Fail("c05/salaries-exceed-term-reward", fmt.Sprintf("block %d: salaries %s > reward %s", b.Height(), expMint.String(), rf.total.String()), nil)
+		}
+		if rf.total.Sign() > 0 && expMint.Cmp(rf.total) < 0 {
+			c.Count("reward:rounding-remainder-not-issued")
+		}
+		if len(refunds) > 0 {
+			c.Count("reward:refund")
+		}
+		for _, a := range refunds {
+			pv, nv := l.view(b.ParentHash(), a), l.view(b.Hash(), a)
+			d, _ := new(big.Int).SetString(pv.deposit, 10)
+			if d == nil {
+				// registered and unregistered inside the reward block itself
+				d = new(big.Int)
+			}
+			if nv.deposit != "" {
+				c.Fail("c05/refund-keeps-deposit", fmt.Sprintf("block %d: refunded candidate %d still has deposit %s", b.Height(), l.label(a), nv.deposit), nil)
+			}
+			if vf := nv.voteFor; vf != (common.Address{}) && l.view(b.Hash(), vf).isCand == 1 && d.Sign() > 0 {
+				c.Count("reward:refund-receiver-votes-for-registered")
+			}
+			if l.n.DM.IsNodeDeputy(b.Height()-1, common.FromHex(l.nodeIDOf(b.Hash(), a))) {
+				c.Count("reward:refund-of-deputy-of-closing-term")
+			}
+		}
+		// postponed refunds still pending after this reward block (ex-candidates elected into the new term)
+		for _, a := range l.univ {
+			if nv := l.view(b.Hash(), a); nv.isCand == 2 && nv.deposit != "" {
+				c.Count("reward:refund-postponed-again(deputy-of-new-term)")
+			}
+		}
+	}
+	unexplained := new(big.Int).Sub(delta, expMint)
+	if unexplained.Sign() != 0 {
 		class := "other"
 		if hasBoxWithSubs {
 			class = "box-subtx-fee-paid-twice"
 		} else if !minerInc.incomeSet {
 			class = "miner-without-income-address"
+		} else if rf != nil {
+			class = "reward-block"
 		}
-		c.Fail("c05/supply-changed/"+class, fmt.Sprintf("block %d: sum of balances changed by %s mo (no reward block, no burn)", b.Height(), delta.String()), nil)
+		what := "no reward block, no burn"
+		if rf != nil {
+			what = fmt.Sprintf("reward block: term reward %s, salaries due %s", rf.total.String(), expMint.String())
+		}
+		c.Fail("c05/supply-changed/"+class, fmt.Sprintf("block %d: sum of balances changed by %s mo, unexplained %s (%s)", b.Height(), delta.String(), unexplained.String(), what), nil)
 	}
 	// gas: per tx gasUsed <= gasLimit, header total
 	total := uint64(0)
@@ -816,35 +1082,46 @@ func (l *ledger) oracles(b *types.Block, invalid types.Transactions, byHash map[
 	for _, cl := range b.ChangeLogs {
 		touched[cl.Address] = true
 	}
-	// ---- C11: tally invariant
+	// ---- C11: tally invariant, judged per block and per candidate: the ERROR of a candidate's count
+	// (votes - (deposit votes + voters' balance votes), 0 for an unregistered account) must not be changed by the block —
+	// so a block that breaks the tally of a candidate whose count was already off is still seen.
 	if l.mode != "c06" {
-		type tv struct{ dep, votes *big.Int }
-		exp := map[common.Address]*big.Int{}
-		for _, a := range l.univ {
-			v := l.view(b.Hash(), a)
-			if v.isCand == 1 {
-				d, _ := new(big.Int).SetString(v.deposit, 10)
-				if d == nil {
-					d = new(big.Int)
+		tallyErr := func(h common.Hash) map[common.Address]*big.Int {
+			e := map[common.Address]*big.Int{}
+			views := map[common.Address]acctView{}
+			for _, a := range l.univ {
+				v := l.view(h, a)
+				views[a] = v
+				if v.isCand == 1 {
+					d, _ := new(big.Int).SetString(v.deposit, 10)
+					if d == nil {
+						d = new(big.Int)
+					}
+					e[a] = new(big.Int).Sub(v.votes, new(big.Int).Div(d, params.DepositExchangeRate))
 				}
-				exp[a] = new(big.Int).Div(d, params.DepositExchangeRate)
 			}
-		}
-		for _, a := range l.univ {
-			v := l.view(b.Hash(), a)
-			if _, ok := exp[v.voteFor]; ok {
-				exp[v.voteFor].Add(exp[v.voteFor], new(big.Int).Div(v.bal, params.VoteExchangeRate))
+			for _, a := range l.univ {
+				v := views[a]
+				if _, ok := e[v.voteFor]; ok {
+					e[v.voteFor].Sub(e[v.voteFor], new(big.Int).Div(v.bal, params.VoteExchangeRate))
+				}
 			}
+			return e
 		}
-		voteTxBy := map[common.Address]bool{}
-		regTx := false
+		errNow, errParent := tallyErr(b.Hash()), tallyErr(b.ParentHash())
+		// candidates a vote tx of this block touches: the target, and the candidate the voter leaves
+		voteTouched := map[common.Address]bool{}
+		regBy := map[common.Address]bool{}
 		var walk func(tx *types.Transaction)
 		walk = func(tx *types.Transaction) {
 			if tx.Type() == params.VoteTx {
-				voteTxBy[tx.From()] = true
+				if tx.To() != nil {
+					voteTouched[*tx.To()] = true
+				}
+				voteTouched[l.view(b.ParentHash(), tx.From()).voteFor] = true
 			}
 			if tx.Type() == params.RegisterTx {
-				regTx = true
+				regBy[tx.From()] = true
 			}
 			if tx.Type() == params.BoxTx {
 				if box, err := types.GetBox(tx.Data()); err == nil {
@@ -857,27 +1134,33 @@ func (l *ledger) oracles(b *types.Block, invalid types.Transactions, byHash map[
 		for _, tx := range b.Txs {
 			walk(tx)
 		}
+		votesMoved := false
 		for _, a := range l.univ {
 			v := l.view(b.Hash(), a)
 			if v.votes.Sign() < 0 {
 				c.Fail("c11/negative-votes", fmt.Sprintf("block %d: candidate %d has %s votes", b.Height(), l.label(a), v.votes.String()), nil)
 			}
+			if rf != nil && len(b.Txs) == 0 && v.votes.Cmp(l.view(b.ParentHash(), a).votes) != 0 {
+				votesMoved = true
+			}
 			if v.isCand == 1 {
-				if exp[a].Cmp(v.votes) != 0 {
-					// was the tally right at the parent? (only report the block that breaks it)
+				was := errParent[a]
+				if was == nil {
+					was = new(big.Int)
+				}
+				if errNow[a].Cmp(was) != 0 {
 					class := "other"
-					if len(voteTxBy) > 0 {
+					if voteTouched[a] {
 						class = "block-with-vote-tx"
-					} else if regTx {
+					} else if regBy[a] {
 						class = "block-with-register-tx"
+					} else if rf != nil {
+						class = "reward-block"
 					}
-					if !l.tallyOK(b.ParentHash(), a) {
-						class = "inherited"
-					}
-					if class != "inherited" {
-						c.Fail("c11/tally-mismatch/"+class, fmt.Sprintf("block %d: candidate %d has %s votes, deposit+voters give %s", b.Height(), l.label(a), v.votes.String(), exp[a].String()), nil)
-					}
+					c.Fail("c11/tally-mismatch/"+class, fmt.Sprintf("block %d: candidate %d has %s votes; the block changed votes - (deposit votes + voters' balance votes) from %s to %s", b.Height(), l.label(a), v.votes.String(), was.String(), errNow[a].String()), nil)
 					c.Count("tally:mismatch:" + class)
+				} else if errNow[a].Sign() != 0 {
+					c.Count("tally:off-since-earlier-block(kept)")
 				} else {
 					c.Count("tally:ok")
 				}
@@ -886,6 +1169,9 @@ func (l *ledger) oracles(b *types.Block, invalid types.Transactions, byHash map[
 					c.Fail("c11/unregistered-has-votes", fmt.Sprintf("block %d: unregistered candidate %d has %s votes", b.Height(), l.label(a), v.votes.String()), nil)
 				}
 			}
+		}
+		if votesMoved {
+			c.Count("reward:votes-moved-by-finalize-alone")
 		}
 	}
 	// ---- C06: every included tx was authorised
@@ -1004,12 +1290,7 @@ func (l *ledger) crossNode(nb *Node, b *types.Block, cands types.Transactions, t
 		c.Fail("c01/honest-block-rejected/other-node", fmt.Sprintf("block %d mined on node A is rejected by node B: %v", b.Height(), e), nil)
 		return
 	}
-	for _, dk := range l.w.DeputyKeys {
-		if keyAddr(dk) != b.MinerAddress() {
-			nb.BC.InsertConfirms(b.Height(), b.Hash(), []types.SignData{Confirm(b, dk)})
-			break
-		}
-	}
+	l.confirmAll(nb, b)
 	ba := l.n.BC.GetBlockByHash(b.Hash())
 	bb := nb.BC.GetBlockByHash(b.Hash())
 	if ba == nil || bb == nil {
@@ -1042,7 +1323,7 @@ func (l *ledger) crossNode(nb *Node, b *types.Block, cands types.Transactions, t
 }
 
 // rebuildChecks: must run while the block is still unconfirmed (its parent view is still addressable).
-func (l *ledger) rebuildChecks(b *types.Block, cands types.Transactions, t uint32, byHash map[common.Hash]*ledgerTx, blockGas uint64) {
+func (l *ledger) rebuildChecks(b *types.Block, cands types.Transactions, t uint32, byHash map[common.Hash]*ledgerTx, blockGas uint64, minerKey *ecdsa.PrivateKey) {
 	c := l.c
 	// the result does not depend on the discarded candidates, nor on map iteration order
 	parent := l.n.BC.GetBlockByHash(b.ParentHash())
@@ -1068,7 +1349,7 @@ func (l *ledger) rebuildChecks(b *types.Block, cands types.Transactions, t uint3
 				}
 			}
 		}
-		b2, _, err := l.n.BuildGas(parent, t, only, nil, blockGas)
+		b2, _, err := l.n.BuildGas(parent, t, only, minerKey, blockGas)
 		if err != nil {
 			c.Fail("c01/rebuild-error", err.Error(), nil)
 			continue
